@@ -51,12 +51,11 @@ C07Tags(r) ==
     IF r.thrown THEN {"exception"} ELSE
     LET rep == ToSet(r.reported) IN
     (IF \E i \in 1..r.n : r.pos[i][1] = SENT \/ r.pos[i][2] = SENT THEN {"non-finite-coordinate"} ELSE
-       \* a violated, unreported separation whose direct opponent (a separation over the same two nodes in the same dimension) was reported
-       \* although it holds: the unsatisfiable-constraint lists are filled by the descent steps only, not by the projection that
-       \* produces the final positions (ConstrainedFDLayout::moveTo)
-       {IF r.cons[i].kind = 1 /\ \E j \in rep : j \in DOMAIN r.cons /\ r.cons[j].kind = 1 /\ r.cons[j].dim = r.cons[i].dim
-                                               /\ {r.cons[j].a[1], r.cons[j].a[2]} = {r.cons[i].a[1], r.cons[i].a[2]} /\ SepOK(r, r.cons[j])
-        THEN <<"unreported-constraint-violated", "separation", "its-reported-opponent-holds">>
+       \* a violated, unreported constraint in a dimension where some constraint was reported although it holds in the result: the
+       \* unsatisfiable-constraint lists are filled by the descent steps only, not by the projection that produces the final positions
+       \* (ConstrainedFDLayout::moveTo), which may have dropped a different member of the contradictory group
+       {IF \E j \in rep : j \in DOMAIN r.cons /\ r.cons[j].kind \in {1, 2, 3} /\ r.cons[i].kind \in {1, 2, 3} /\ r.cons[j].dim = r.cons[i].dim /\ Holds(r, rep, r.cons[j])
+        THEN <<"unreported-constraint-violated", "a-reported-constraint-of-that-dimension-holds-instead">>
         ELSE <<"unreported-constraint-violated", KindName(r.cons[i].kind)>> : i \in {i \in DOMAIN r.cons : i \notin rep /\ ~Holds(r, rep, r.cons[i])}})
     \cup (IF \E i \in 1..r.n : Abs(r.dim[i][1] - r.size[i][1] * S) > 1 \/ Abs(r.dim[i][2] - r.size[i][2] * S) > 1 THEN {"size-changed"} ELSE {})
 \* ---- overlap avoidance and cluster containment (C08) -----------------------------
